@@ -148,8 +148,22 @@ def judge(ctx, R, A, site, tags=(), expect_pi=None, unique=False):
 def _perm(spec, ctx, R):
     m, n, pi = spec["m"], spec["n"], spec["pi"]
     rng = gen.rng_for(spec["seed"], "c07perm", m, n, tuple(pi))
-    for variant in ("generic", "int_U"):
+    for variant in ("generic", "int_U", "axis_L_dyadic"):
         L, U = _make_LU(rng, m, n)
+        if variant == "axis_L_dyadic":
+            # multipliers confined to ONE quaternion axis (real, i, j or k; exact dyadic values) and a real dyadic diagonal of U:
+            # all products are exact in floating point, so the computed multipliers have exactly-zero components on the other axes
+            ax = int(rng.integers(0, 4))
+            Lc = np.zeros((m, min(m, n), 4))
+            for i in range(m):
+                for j in range(min(i, min(m, n))):
+                    Lc[i, j, ax] = float(rng.choice([-1.0, 1.0])) * float(rng.integers(1, 7)) / 8.0
+                if i < min(m, n):
+                    Lc[i, i, 0] = 1.0
+            Uc = np.round(refq.fa(U) * 4.0) / 4.0
+            for i in range(min(m, n)):
+                Uc[i, i] = [float(rng.integers(2, 5)), 0.0, 0.0, 0.0]
+            L, U = refq.qa(Lc), refq.qa(Uc)
         if variant == "int_U":
             Uc = np.round(refq.fa(U) * 3.0)
             for i in range(min(m, n)):
